@@ -47,7 +47,7 @@ CHECKS = {
             "up to map-entry order when a map has >= 2 entries; mutation during a concurrent Marshal is outside the property; schedules are sampled",
             "model-based stateful property testing (rapid) + race-detector stress"),
     "C10": ("gencode",
-            "for every type generated without enableunsafedecode: decode a generated encoding rich in strings/bytes/maps/nested/unknown data, snapshot through reflection, overwrite the input buffer and re-use it for another decode, and require the first message to be unchanged; the lazyproto half is covered by the hand-out snapshots of C14 (safe mode) which re-read every handed-out slice/string after later decodes",
+            "for every type generated without enableunsafedecode: decode a generated encoding rich in strings/bytes/maps/nested/unknown data, snapshot through reflection, overwrite the input buffer and re-use it for another decode, and require the first message to be unchanged; lazyproto clause (second group, lazy engine): a schema-free message is decoded in safe mode through both entry points, the caller's buffer is overwritten in one of six ways before or after the accessors were first called, and every accessor must answer as on an untouched copy of the same bytes while slices/strings handed out earlier stay unchanged (C14 additionally re-reads hand-outs after pooled results were recycled)",
             "types generated with enableunsafedecode and lazyproto in fast mode are documented exceptions and not asserted either way",
             "metamorphic property-based testing (rapid)"),
     "C16": ("gencode",
@@ -63,11 +63,11 @@ CHECKS = {
             "prototext output is only compared within one process; gogo's Equal is not NaN-aware and distinguishes nil from empty bytes, so content equality falls back to the reflective copies; schedules are sampled",
             "property-based differential testing (rapid) against the owning runtimes + exhaustive unsupported-value matrix + race-detector re-exec rounds"),
     "C12": ("gencode",
-            "rapid-generated programs (<= 30 ops: Set/Get/Has/Clear/ClearAll/Range/Marshal/ExtensionFieldNumber and accesses with another runtime's descriptor) over proto2 messages with extensions of every kind on plain types of the three runtimes; model map + twin message driven through the owning runtime's own extension API; invariants after every step",
+            "rapid-generated programs (<= 30 ops: Set/Get/Has/Clear/ClearAll/Range/Marshal/ExtensionFieldNumber and accesses with another runtime's descriptor) over proto2 messages with extensions of every kind on plain types of the three runtimes; model map + twin message driven through the owning runtime's own extension API; invariants after every step; plus fresh child processes in which each type's first csproto call is made with a typed nil pointer (10 entry points, rotated) before a fixed extension program runs under the same oracle",
             "GetExtension on an unset extension differs between runtimes (default vs error): the oracle is the owning runtime's answer; Google V1 and V2 share one descriptor Go type, so a 'foreign' descriptor is a gogo one for Google messages and vice versa",
             "model-based stateful property testing (rapid) with a twin driven through the owning runtime"),
     "C18": ("gencode",
-            "rapid-generated values (JSON-representable: finite floats, declared enum values, in-range Timestamp/Duration) x the 2^3 marshal option combinations x indent strings x unknown-key / missing-required probes on the three runtimes; oracle: json.Valid, adapter round trip, the owning runtime's own JSON decoder accepts and decodes the original, structural probes per option, nil in / nil out",
+            "rapid-generated values (JSON-representable: finite floats, declared enum values, in-range Timestamp/Duration) x the 2^3 marshal option combinations x indent strings x unknown-key / missing-required probes on the three runtimes, each adapter call with its own options or with all five options in a drawn order; oracle: json.Valid, adapter round trip, the owning runtime's own JSON decoder accepts and decodes the original, structural probes per option, nil in / nil out",
             "protojson whitespace is unstable: parsed JSON and per-line prefixes are compared, never bytes; equality with the owning runtime's marshaler output is not required (gogo messages are routed through golang's jsonpb by design of json.go)",
             "property-based round-trip + differential testing (rapid) with structural option probes"),
     "C13": ("lazy",
